@@ -3,6 +3,7 @@ CONSTANTS
   MaxLen = 24
   NSeed = 6
   EmitLen = 24
+  OpFilter <- AllOps
   NParam = 4
 CONSTRAINT Report
 CHECK_DEADLOCK FALSE
